@@ -231,15 +231,15 @@ Definition atom_val (st : sst) (a : Z) : expr :=
 Definition subst_ok (w : Z) (st : sst) (q : expr) : bool := forallb (atom_ok w st) (e_variables q).
 Definition subst_st (w : Z) (st : sst) (q : expr) : expr := psubst w (atom_val st) q.
 
-Definition is_nz_const (w : Z) (p : expr) : bool :=
-  match p with [(c, [])] => negb (c mod 2 ^ w =? 0) | _ => false end.
-Definition nonzero_in (w : Z) (st : sst) (p : expr) : bool :=
-  is_nz_const w p || existsb (tv_same w p) (s_nz st).
-
 (** a state that claims the zero polynomial to be non-zero describes no concrete state: it marks
     code that is unreachable (the exit of a loop without guard whose condition is provably non-zero
     at its back edge) and entails everything *)
 Definition is_bot (st : sst) : bool := existsb (fun p => match p with [] => true | _ => false end) (s_nz st).
+
+Definition is_nz_const (w : Z) (p : expr) : bool :=
+  match p with [(c, [])] => negb (c mod 2 ^ w =? 0) | _ => false end.
+Definition nonzero_in (w : Z) (st : sst) (p : expr) : bool :=
+  is_bot st || is_nz_const w p || existsb (tv_same w p) (s_nz st).
 
 Definition entails (w : Z) (st : sst) (f : facts) : bool :=
   is_bot st ||
